@@ -91,6 +91,20 @@ fn c10_for(lname: &str, comp: Comp, thorough: bool, seed: u64) -> Vec<CaseOut> {
             Err(e) => record(format!("basic:{name}"), Err(("creation failed".into(), e)), case(name)),
         }
     }
+    // a0. the extra packs handed over in reverse order (the manifest lists id 3 before id 2)
+    if l.extra_packs.len() >= 2 {
+        for (name, p) in [("OneFile", Packaging::OneFile), ("TwoFiles", Packaging::TwoFiles), ("NoConcat", Packaging::NoConcat)] {
+            let d = base.path().join(format!("rev-{name}"));
+            std::fs::create_dir_all(&d).unwrap();
+            REVERSE_EXTRAS.with(|r| r.set(true));
+            let c = create_logical(&l, comp, p, &d, "c");
+            REVERSE_EXTRAS.with(|r| r.set(false));
+            match c {
+                Ok(c) => record(format!("basic(extras in reverse order):{name}"), dump_vs_model(&l, &c.path).map(|_| ()), case(name)),
+                Err(e) => record(format!("basic(extras in reverse order):{name}"), Err(("creation failed".into(), e)), case(name)),
+            }
+        }
+    }
     // a'. extra packs written somewhere else than next to the entry-point file: read in place,
     // then again after the whole tree has been moved (recorded locations are relative to the
     // entry-point file, so the set of files can be handled as a whole)
